@@ -111,12 +111,16 @@ func TestC08EncodeChain(t *testing.T) {
 		}
 		nt := len(c.Chain) >= 2 && len(used) >= 2
 		sig, _ := json.Marshal(c)
-		vh.Case("C08.chain", string(sig), nt, fmt.Sprintf("len=%d", len(c.Chain)))
+		prop := os.Getenv("VERIF_AS") // C07 lists encode.go among its anchors: the same chains run for it
+		if prop == "" {
+			prop = "C08"
+		}
+		vh.Case(prop+".chain", string(sig), nt, fmt.Sprintf("len=%d", len(c.Chain)))
 		if len(sig) < 1200 {
-			vh.Sample("C08.chain", nt, c)
+			vh.Sample(prop+".chain", nt, c)
 		}
 		if err := runC08Chain(c); err != nil {
-			vh.Fail(t, "C08", "C08.chain", c, err)
+			vh.Fail(t, prop, prop+".chain", c, err)
 		}
 	})
 }
@@ -214,5 +218,6 @@ func TestC08DetectCmd(t *testing.T) {
 
 func init() {
 	vh.RegisterReplay("C08.chain", vh.Replayer(runC08Chain))
+	vh.RegisterReplay("C07.chain", vh.Replayer(runC08Chain))
 	vh.RegisterReplay("C08.detectcmd", vh.Replayer(runC08DetectCmd))
 }
